@@ -661,6 +661,24 @@ example :
     (Rx.parseEx true (lit "\\d")).isNone = true ∧ (Rx.parseEx false (lit "(a{30}){40}")).isNone = true := by
   decide +kernel
 
+/-- flag groups (`s`: the dot also matches the line feed; `m`: `^` is line-wise; `U`: greedy and lazy swapped; a scoped
+`(?i:…)` ends at its parenthesis), POSIX classes, hex escapes and `\Q…\E`, a `{` that is not a repetition -/
+example :
+    (Rx.parse (lit "(?s)a.b")).map (fun p => Rx.findSubmatchIndex (lit "a\nb") p.re p.ng) = some [0, 3] ∧
+    (Rx.parse (lit "a.b")).map (fun p => Rx.findSubmatchIndex (lit "a\nb") p.re p.ng) = some [] ∧
+    (Rx.parse (lit "(?m)^b")).map (fun p => Rx.findSubmatchIndex (lit "a\nb") p.re p.ng) = some [2, 3] ∧
+    (Rx.parse (lit "(?U)a+")).map (fun p => Rx.findSubmatchIndex (lit "aaa") p.re p.ng) = some [0, 1] ∧
+    (Rx.parse (lit "(?U)a+?")).map (fun p => Rx.findSubmatchIndex (lit "aaa") p.re p.ng) = some [0, 3] ∧
+    (Rx.parse (lit "(?i:a)b")).map (fun p => Rx.findSubmatchIndex (lit "Ab") p.re p.ng) = some [0, 2] ∧
+    (Rx.parse (lit "(?i:a)b")).map (fun p => Rx.findSubmatchIndex (lit "AB") p.re p.ng) = some [] ∧
+    (Rx.parse (lit "(x(?i)a)a")).map (fun p => Rx.findSubmatchIndex (lit "xAA xAa") p.re p.ng) = some [4, 7, 4, 6] ∧
+    (Rx.parseEx true (lit "[[:alpha:]]+")).map (fun p => Rx.findSubmatchIndexL (lit "12ab3") p.re p.ng) = some [2, 4] ∧
+    (Rx.parse (lit "[[:^alpha:][:digit:]]+")).map (fun p => Rx.findSubmatchIndex (lit "ab12 c") p.re p.ng) = some [2, 5] ∧
+    (Rx.parse (lit "\\x41\\Q.\\E")).map (fun p => Rx.findSubmatchIndex (lit "AxA.") p.re p.ng) = some [2, 4] ∧
+    (Rx.parse (lit "a{,2}")).map (fun p => Rx.findSubmatchIndex (lit "a{,2}") p.re p.ng) = some [0, 5] ∧
+    (Rx.parse (lit "a{1001}")).isNone = true ∧ (Rx.parseEx true (lit "[a-c-e]")).isNone = true := by
+  decide +kernel
+
 /-- `^` under `--posix` is line-wise (no `OneLine` flag) -/
 example : (Rx.parseEx true (lit "^b")).map (fun p => Rx.findSubmatchIndexL (lit "a\nb") p.re p.ng) = some [2, 3] ∧
     (Rx.parseEx false (lit "^b")).map (fun p => Rx.findSubmatchIndex (lit "a\nb") p.re p.ng) = some [] := by
